@@ -106,7 +106,7 @@ func mirrorCheck(prop string, props string, rule string) func(c *vx.Ctx) {
 	}
 }
 
-const ruleCommon = "executions = benign 40-event script over 4 heights (validator sets change at heights 3,4,5; one nil round) with every single deviation (insert any alphabet event at any of 41 positions, drop or corrupt any scripted message), in the thorough tier every pair of core-alphabet deviations, plus BFS with canonical-state dedup from 4 script prefixes; oracles run after every event; "
+const ruleCommon = "executions = benign 40-event script over 4 heights (validator sets change at heights 3,4,5; one nil round) with every single deviation (insert any alphabet event at any of 41 positions, drop or corrupt any scripted message), in the thorough tier every pair of core-alphabet deviations, plus BFS with canonical-state dedup from 4 script prefixes; oracles run after every event; The alphabet includes vote messages for height 0, votes made out against the previous height's validator set, replays without any precommit, and callers that give up at their k-th kernel round trip (CANCEL:k); poll destinations are reused across polls. "
 
 func init() {
 	registry.Checks["ALLA"] = mirrorCheck("ALLA", allProps, ruleCommon)
@@ -137,9 +137,9 @@ func init() {
 	registry.Checks["C11"] = mirrorCheck("C11", "C11", ruleCommon+"per-consumer monitors over everything the gossip and state-machine consumers received (strictly increasing versions, growing proposals and signer sets), currency after the final drain, nil-round precommits delivered; non-trivial as C01")
 }
 
-const ruleBare = " PLUS the bare state machine (real tmstate.StateMachine and consensus manager, the explorer playing the mirror on the round-entrance and round-view channels): benign 36-event script over 3 heights incl. a nil round with every single deviation from a 68-event alphabet (views growing by any vote or proposal for the current, next and next-but-one round, jump-ahead signals, grown views of the round or height already left, committed-header answers, height-committed signal, every strategy answer, timers, driver, late proposal, restart), thorough: pairs within 3 positions, plus BFS from 5 script prefixes with canonical-state dedup; the same trace monitors run; "
+const ruleBare = " PLUS the bare state machine (real tmstate.StateMachine and consensus manager, the explorer playing the mirror on the round-entrance and round-view channels): benign 36-event script over 3 heights incl. a nil round with every single deviation from a 68-event alphabet (views growing by any vote or proposal for the current, next and next-but-one round, jump-ahead signals, grown views of the round or height already left, committed-header answers, height-committed signal, every strategy answer, timers, driver, late proposal, restart), thorough: pairs within 3 positions, plus BFS from 5 script prefixes with canonical-state dedup; the state machine's main select is a controlled one (harness/tools/selxform): its kernel is held at the select, released pass by pass, and BATCH deviations let 2-3 inputs (scripted, or one of 15 inserted events such as the height-committed signal, a stale view, a timer) become ready together with each select case tried as the one taken first; the same trace monitors run (timer discipline after every pass, decision-due clauses once all inputs are consumed); "
 
-const ruleNode = "executions = one complete real engine (tmengine.New: mirror + state machine + consensus manager) in a synctest bubble with the harness as network, consensus strategy (every call blocks until released), round timer, driver and gossip consumer; benign 54-event script over 6 heights (validator sets change every height from 3, own key absent at height 5, one nil round by proposal timeout) with every single deviation (insert any alphabet event at any position, drop any scripted event, replace any strategy answer), in the thorough tier pairs of core deviations over the first 3 heights, plus BFS with canonical-state dedup from 4 script prefixes; trace monitors run at every quiescent point; "
+const ruleNode = "executions = one complete real engine (tmengine.New: mirror + state machine + consensus manager) in a synctest bubble with the harness as network, consensus strategy (every call blocks until released), round timer, driver and gossip consumer; benign 54-event script over 6 heights (validator sets change every height from 3, own key absent at height 5, one nil round by proposal timeout) with every single deviation (insert any alphabet event at any position, drop any scripted event, replace any strategy answer), in the thorough tier pairs of core deviations over the first 3 heights, plus BFS with canonical-state dedup from 4 script prefixes; a restart matrix (restart after every prefix of the first three heights, then every sequence of up to 2, thorough 3, strategy/timer/vote answers), duplicate strategy proposals, and batched inputs for the state machine's controlled main select (next 2-3 scripted events ready together, each select case first); trace monitors run at every quiescent point; "
 
 func nodeCheck(prop string, props string, rule string, withMirror bool) func(c *vx.Ctx) {
 	return func(c *vx.Ctx) {
